@@ -1229,3 +1229,37 @@ func ConsistentEdge(b *ssa.BasicBlock, succ int, target *ssa.BasicBlock) bool {
 	}
 	return true
 }
+
+// OrDeferred widens a "passes this instruction" predicate to deferred
+// closures: a `defer func() { ... X ... }()` passed on the path runs X on
+// every exit after it.
+func OrDeferred(pred func(ssa.Instruction) bool) func(ssa.Instruction) bool {
+	return func(in ssa.Instruction) bool {
+		if pred(in) {
+			return true
+		}
+		d, ok := in.(*ssa.Defer)
+		if !ok {
+			return false
+		}
+		var fn *ssa.Function
+		switch v := d.Call.Value.(type) {
+		case *ssa.MakeClosure:
+			fn, _ = v.Fn.(*ssa.Function)
+		case *ssa.Function:
+			if v.Parent() != nil {
+				fn = v
+			}
+		}
+		if fn == nil {
+			return false
+		}
+		found := false
+		Instrs(fn, func(x ssa.Instruction) {
+			if pred(x) {
+				found = true
+			}
+		})
+		return found
+	}
+}
